@@ -979,7 +979,10 @@ def stream_len(it, st, s):
         return isatsub(slice_len(it, sl), it.isub(w, iconst(1)))
     if k == 'chunks':
         sl, w, exact = s.parts
-        return idiv(slice_len(it, sl), w)
+        if exact:
+            return idiv(slice_len(it, sl), w)
+        # `chunks` also yields the shorter remainder: ⌈n / w⌉ chunks
+        return idiv(it.iadd(slice_len(it, sl), it.isub(w, iconst(1))), w)
     if k == 'scan':
         return stream_len(it, st, s.parts[0])
     if k == 'prefix':
@@ -1065,6 +1068,9 @@ def stream_elem(ctx, s, i):
         g, payload = _opt_parts(ctx, r)
         if payload is None:
             raise Unsupported('iter::from_fn closure never yields')
+        if g != TRUE and ctx.interp.cond_known(ctx.state, g) is not True:
+            # the stream is as long as its source only if the closure yields whenever the source has an element
+            raise Unsupported('iter::from_fn closure that may stop before its source is exhausted')
         return payload
     if k == 'zip':
         return Tup((stream_elem(ctx, s.parts[0], i), stream_elem(ctx, s.parts[1], i)))
@@ -1122,7 +1128,11 @@ def stream_elem(ctx, s, i):
         sl, w, exact = s.parts
         off = ('i*', w, i) if not (w[0] == 'ic' and i[0] == 'ic') else iconst(w[1] * i[1])
         a = it.iadd(sl.start, off)
-        return SliceRef(sl.root, sl.path, a, it.iadd(a, w), sl.mut)
+        b = it.iadd(a, w)
+        if not exact:
+            # the last chunk of `chunks` may be shorter
+            b = imin(b, sl.end)
+        return SliceRef(sl.root, sl.path, a, b, sl.mut)
     if k == 'scan':
         inner, state_cell, clos = s.parts
         e = stream_elem(ctx, inner, i)
@@ -1172,7 +1182,8 @@ def stream_tail(it, st, s):
         return Stream('windows', (SliceRef(sl.root, sl.path, it.iadd(sl.start, one), sl.end, sl.mut), w))
     if k == 'chunks':
         sl, w, exact = s.parts
-        return Stream('chunks', (SliceRef(sl.root, sl.path, it.iadd(sl.start, w), sl.end, sl.mut), w, exact))
+        nxt_ = it.iadd(sl.start, w)
+        return Stream('chunks', (SliceRef(sl.root, sl.path, nxt_ if exact else imin(nxt_, sl.end), sl.end, sl.mut), w, exact))
     raise Unsupported('tail of stream %s' % k)
 
 
@@ -1357,6 +1368,9 @@ def drop_last(it, st, s):
         return Stream('lit', tuple(s.parts[:-1]))
     if k == 'rev':
         return Stream('rev', (stream_tail(it, st, s.parts[0]),))
+    if k == 'windows':
+        sl, w = s.parts
+        return Stream('windows', (SliceRef(sl.root, sl.path, sl.start, it.isub(sl.end, one), sl.mut), w))
     raise Unsupported('back of stream %s' % k)
 
 
@@ -3372,6 +3386,26 @@ def close_inplace_loop(it, frame, summ):
     it.events.append({'kind': 'scan', 'fn': frame.f['path'], 'line': summ.line, 'seq': body, 'stream': src, 'from_loop': True, 'in_place': True,
                       'over': q0})
     return {'exit': et, 'root': qr, 'path': qp, 'value': value}
+
+
+@model('<std::option::Option<&T>>::copied', '<std::option::Option<&T>>::cloned', '<std::option::Option<&mut T>>::copied',
+       '<std::option::Option<&mut T>>::cloned')
+def _(ctx):
+    it = ctx.interp
+    g, p_ = _opt_parts(ctx, ctx.args[0])
+    if p_ is None or g == FALSE:
+        return none()
+    if not isinstance(p_, Ref):
+        raise Unsupported('Option::copied of a non-reference payload')
+    return opt(g, it.read(ctx.state, p_.root, p_.path))
+
+
+@model('<usize>::div_ceil')
+def _(ctx):
+    it = ctx.interp
+    a, b = scalar(ctx, ctx.args[0]), scalar(ctx, ctx.args[1])
+    require(ctx, 'assert:div-zero', mk_icmp('ne', b, iconst(0)), {'what': 'usize::div_ceil'})
+    return idiv(it.iadd(a, it.isub(b, iconst(1))), b)
 
 
 @model('std::iter::repeat_with')
